@@ -88,6 +88,10 @@ Theorem C10_helix_monotone : forall d ox oy tx ty cx cy turns, (1 <= turns)%Z ->
   0 < dsign d * (hx_angle d ox oy tx ty cx cy turns th2 - hx_angle d ox oy tx ty cx cy turns th1).
 Proof. exact helix_angle_monotone. Qed.
 
+Theorem C10_helix_z_linear : forall d ox oy oz tx ty h cx cy turns th, hx_total d ox oy tx ty cx cy turns <> 0 ->
+  arc_z oz h th = oz + h * (hx_angle d ox oy tx ty cx cy turns th - a_start ox oy cx cy) / hx_total d ox oy tx ty cx cy turns.
+Proof. exact helix_z_linear. Qed.
+
 Theorem C10_spiral_radius : forall ox oy tx ty th, hx_radius ox oy tx ty ox oy th = th * arc_rt tx ty ox oy.
 Proof. exact spiral_radius. Qed.
 
